@@ -247,6 +247,13 @@ func checkError(t fataler, who string, input []byte, err error) bool {
 // checkErrorIn: the error's line, column and context are those of some offset inside [lo, hi] (the bytes the failing call
 // worked on): an error that is self-consistent but belongs to another place of the input is wrong as well
 func checkErrorIn(t fataler, who string, input []byte, err error, lo, hi int) bool {
+	return checkErrorAt(t, who, input, err, lo, hi, nil)
+}
+
+// checkErrorAt: starts, when given, are the offsets at which a token that is not whitespace or a comment starts or ends
+// (and the end of the input): the parser stops in front of or behind a token, not inside one nor inside the whitespace
+// or comments between two
+func checkErrorAt(t fataler, who string, input []byte, err error, lo, hi int, starts map[int]bool) bool {
 	pe, ok := err.(*parse.Error)
 	if !ok {
 		return false
@@ -256,7 +263,7 @@ func checkErrorIn(t fataler, who string, input []byte, err error, lo, hi int) bo
 		l, c, ctx := parse.Position(bytes.NewReader(input), o)
 		if l == pe.Line && c == pe.Column && ctx == pe.Context {
 			found = o
-			if o >= lo && o <= hi {
+			if o >= lo && o <= hi && (starts == nil || starts[o]) {
 				return true
 			}
 		}
@@ -271,8 +278,25 @@ func checkErrorIn(t fataler, who string, input []byte, err error, lo, hi int) bo
 	return true
 }
 
+func cssTokenStarts(input []byte) map[int]bool {
+	starts := map[int]bool{len(input): true}
+	l := css.NewLexer(parse.NewInputBytes(append([]byte(nil), input...)))
+	off := 0 // the css tokens tile the input
+	for {
+		tt, data := l.Next()
+		if tt == css.ErrorToken {
+			return starts
+		}
+		if tt != css.WhitespaceToken && tt != css.CommentToken {
+			starts[off] = true
+			starts[off+len(data)] = true // ("unexpected ending" is reported behind the token)
+		}
+		off += len(data)
+	}
+}
+
 var errFrags = map[string][]string{
-	"css":  {"a", "{", "}", ":", ";", "(", ")", "[", "]", "@media", "@x", "b:c", "\n", " ", "/*", "*/", "\"", "'", "url(", "\\", "é", "#", ",", "!important", "\x00", "--x", "<!--"},
+	"css":  {"a", "{", "}", ":", ";", "(", ")", "[", "]", "@media", "@x", "b:c", "\n", " ", "/*", "*/", "*", "* ", "*\n\n  ", "*/*c*/", ";;", "\"", "'", "url(", "\\", "é", "#", ",", "!important", "\x00", "--x", "<!--"},
 	"json": {"{", "}", "[", "]", ",", ":", `"a"`, `"`, "1", "-", "true", "nul", " ", "\n", "\x00", "é", "x", "@", "\r\n"},
 	"xml":  {"<a", ">", "/>", "</a>", " b='c'", " b=\"c\"", "<!--", "-->", "<![CDATA[", "]]>", "<?xml", "?>", "<!DOCTYPE", "[", "]", "text", "\n", "\x00", "é", " "},
 	"html": {"<a", ">", "/>", "</a>", " b=c", "<svg>", "</svg>", "<math>", "</math>", "<script>", "</script>", "\"", "text", "\n", "\x00", "é", "<!--", "-->", "<xml>", "</xml>"},
@@ -305,7 +329,7 @@ func TestProp_ParserErrors(t *testing.T) {
 				gt, _, _ := p.Next()
 				if gt == css.ErrorGrammar {
 					// every error is fetched, also a second one with the same message: it must be located in the unit that failed
-					got = checkErrorIn(t, "css.Parser", input, p.Err(), before2, p.Offset()) || got
+					got = checkErrorAt(t, "css.Parser", input, p.Err(), before2, p.Offset(), cssTokenStarts(input)) || got
 					if _, ok := p.Err().(*parse.Error); !ok {
 						break
 					}
